@@ -2,7 +2,7 @@ SPECIFICATION Spec
 CONSTANTS
   Tables <- MCTables
   Bytes <- MCBytes
-  MaxBytes = 10
+  MaxBytes = 8
   MaxLines = 2
   Codes <- MCCodes
   VarRets = {0}
@@ -16,7 +16,7 @@ CONSTANTS
   LockRets = {0}
   MaxLockFail = 0
   Toggles <- MCToggles
-  MaxToggle = 3
+  MaxToggle = 2
   Edits = FALSE
   Prefix <- NoPrefix
   MaxHavoc = 0
